@@ -28,6 +28,7 @@ import (
 
 	"verif/harness/internal/drv"
 	"verif/harness/internal/fe"
+	"verif/harness/internal/fmtw"
 )
 
 // IngressCase is one row of the table written by Ingress.tla.
@@ -36,6 +37,7 @@ type IngressCase struct {
 	Defect       string   `json:"defect"`
 	Present      bool     `json:"present"`
 	Limit        string   `json:"limit"`
+	Framing      string   `json:"framing"` // framing rows: how the (valid) zstd stream is framed
 	Allowed      []string `json:"allowed"`
 	PresentAfter string   `json:"presentAfter"`
 }
@@ -507,7 +509,7 @@ func RunIngress(cases []IngressCase, seed int64, sizes []int, modes, impls []str
 					return f, nil
 				}
 				for ci, c := range cases {
-					if (c.Limit != "none") != limitCases {
+					if (c.Limit != "none") != limitCases || c.Framing != "" {
 						continue
 					}
 					if c.Limit == "below" && size <= 1 {
@@ -584,6 +586,125 @@ func RunIngress(cases []IngressCase, seed int64, sizes []int, modes, impls []str
 	}
 	if len(runs) == 0 {
 		return runs, viols, ErrNoCases
+	}
+	if !limitCases {
+		r2, v2, e := ingressFramings(cases, rng, modes)
+		runs = append(runs, r2...)
+		viols = append(viols, v2...)
+		if e != nil {
+			return runs, viols, e
+		}
+	}
+	return runs, viols, nil
+}
+
+// ingressFramings executes the framing rows of Ingress.tla: one blob of several MiB, compressed in the ways a
+// client's encoder may choose, uploaded through the streaming transports.
+func ingressFramings(cases []IngressCase, rng *rand.Rand, modes []string) (runs []IngressRun, viols []drv.Violation, err error) {
+	data := append(drv.GenData(rng, 5<<20, 2), drv.GenData(rng, 4<<20+4099, 0)...) // 9 MiB and a bit: text, then noise
+	H, S := sha(data), int64(len(data))
+	frame := func(fr string) ([]byte, error) {
+		var buf bytes.Buffer
+		switch fr {
+		case "singleSegment":
+			return zenc.EncodeAll(data, nil), nil // announces the content size: the window is the content
+		case "defaultWindow", "window16MiB":
+			opts := []zstd.EOption{zstd.WithEncoderLevel(zstd.SpeedDefault)}
+			if fr == "window16MiB" {
+				opts = append(opts, zstd.WithWindowSize(16<<20))
+			}
+			w, e := zstd.NewWriter(&buf, opts...)
+			if e != nil {
+				return nil, e
+			}
+			for off := 0; off < len(data); off += 1 << 20 { // streamed: the encoder does not know the size in advance
+				end := off + 1<<20
+				if end > len(data) {
+					end = len(data)
+				}
+				if _, e := w.Write(data[off:end]); e != nil {
+					return nil, e
+				}
+			}
+			if e := w.Close(); e != nil {
+				return nil, e
+			}
+			return buf.Bytes(), nil
+		}
+		return nil, fmt.Errorf("unknown framing %s", fr)
+	}
+	for _, mode := range modes {
+		for ci, c := range cases {
+			if c.Framing == "" {
+				continue
+			}
+			transport, e := frame(c.Framing)
+			if e != nil {
+				return runs, viols, e
+			}
+			// the stream is valid by an independent decoder's account, otherwise the row says nothing
+			if dec, e := fmtw.DecodeZstdStream(transport); e != nil || !bytes.Equal(dec, data) {
+				return runs, viols, fmt.Errorf("framing %s: the harness's own stream does not decode: %v", c.Framing, e)
+			}
+			f, e := fe.New(fe.Opts{Mode: mode, MaxSize: 1 << 30})
+			if e != nil {
+				return runs, viols, e
+			}
+			oc, detail := "", ""
+			switch c.Path {
+			case "HttpPutZstd":
+				code, body, _, e := f.HTTPDo(http.MethodPut, "/cas/"+H, transport, map[string]string{"Content-Encoding": "zstd", "X-Digest-SizeBytes": fmt.Sprint(S)})
+				if e != nil {
+					f.Close()
+					return runs, viols, e
+				}
+				oc, detail = "reject", fmt.Sprintf("status %d %s", code, strings.TrimSpace(string(body)))
+				if code == 200 {
+					oc = "ack"
+				}
+			case "BsZstd":
+				ctx, cancel := context.WithTimeout(context.Background(), 60*time.Second)
+				w, e := f.BS.Write(ctx)
+				if e != nil {
+					cancel()
+					f.Close()
+					return runs, viols, e
+				}
+				name := fmt.Sprintf("uploads/%08x-aaaa-bbbb-cccc-000000000000/compressed-blobs/zstd/%s/%d", rng.Uint32(), H, S)
+				for sent := 0; sent < len(transport); sent += 1 << 20 {
+					end := sent + 1<<20
+					if end > len(transport) {
+						end = len(transport)
+					}
+					rq := &bytestream.WriteRequest{Data: transport[sent:end], WriteOffset: int64(sent), FinishWrite: end == len(transport)}
+					if sent == 0 {
+						rq.ResourceName = name
+					}
+					if e := w.Send(rq); e != nil {
+						break
+					}
+				}
+				_, e = w.CloseAndRecv()
+				cancel()
+				oc, detail = "ack", ""
+				if e != nil {
+					oc, detail = "reject", e.Error()
+				}
+			}
+			p, readable, pd, e := Presence(f, H, S)
+			if e != nil {
+				f.Close()
+				return runs, viols, e
+			}
+			runs = append(runs, IngressRun{Case: c, Mode: mode, Impl: "go", Size: len(data), Outcome: oc})
+			where := fmt.Sprintf("%s of a well-formed zstd stream framed as %s (blob of %d bytes, %d on the wire) mode=%s", c.Path, c.Framing, len(data), len(transport), mode)
+			if !contains(c.Allowed, oc) {
+				viols = append(viols, drv.Violation{Prop: "C01", What: where + fmt.Sprintf(": answered %q (%s), the specification allows %v", oc, detail, c.Allowed), Hist: ci})
+			} else if !p || !readable {
+				viols = append(viols, drv.Violation{Prop: "C01", What: where + fmt.Sprintf(": acknowledged, but the blob is present=%v readable=%v afterwards (%s)", p, readable, pd), Hist: ci})
+			}
+			f.Close()
+		}
 	}
 	return runs, viols, nil
 }
